@@ -31,6 +31,10 @@
 (*   * the value of a fresh id: any id not below `nextId` (IdSlack = 0      *)
 (*     reproduces the code's counter);                                      *)
 (*   * the reason given for a rejection (`why` is carried, never judged);   *)
+(*   * the reading of the exchange clock while a request is served: any     *)
+(*     instant between the client's request time and request time + latency *)
+(*     (ClockSlack = FALSE reproduces the code: request time + latency/2);  *)
+(*     a fill carries that reading;                                         *)
 (*   * the order of the balance and the trade notification of one order     *)
 (*     (the projection sorts the notifications of one request by kind);     *)
 (*   * the bought asset is NOT credited (the statement does not ask it).    *)
@@ -49,7 +53,9 @@ CONSTANTS Times,      \* client request times (ms offsets)
           Sinces,     \* `time_since` arguments of FetchTrades
           OpenCids,   \* client ids of the resting orders configured initially
           MaxTrades,  \* bound on accepted orders (model checking only)
-          IdSlack     \* how far above nextId a fresh id may be
+          IdSlack,    \* how far above nextId a fresh id may be
+          ClockSlack  \* FALSE: the exchange clock reads request time + latency/2 (the code);
+                      \* TRUE: anything from request time to request time + latency
 
 VARIABLES fee,        \* configured fee percentage            (never changes)
           lat,        \* configured latency                   (never changes)
@@ -117,8 +123,10 @@ NowAfter(r) == r.t + (lat \div 2)                   \* MockExchange::update_time
 
 Debit(b, a, n) == [b EXCEPT ![a] = [total |-> @.total - n, free |-> @.free - n]]
 
-Fill(id, r) == [id |-> id, oid |-> id, instr |-> r.instr, side |-> r.side, p |-> r.p, q |-> r.q,
-                fee |-> FeeQuote(r), t |-> NowAfter(r)]
+ClockChoices(r) == IF ClockSlack THEN r.t .. (r.t + lat) ELSE {NowAfter(r)}
+
+Fill(id, r, tt) == [id |-> id, oid |-> id, instr |-> r.instr, side |-> r.side, p |-> r.p, q |-> r.q,
+                    fee |-> FeeQuote(r), t |-> tt]
 NoFill == [id |-> -1, oid |-> -1, instr |-> "none", side |-> "none", p |-> 0, q |-> 0, fee |-> 0, t |-> 0]
 
 \* the two notifications of one accepted order (same record shape for both kinds)
@@ -143,58 +151,59 @@ Init == /\ fee \in FeePcts
         /\ last = Resp(NoReq, "init", "-", -1, 0)
         /\ res = NoRes
 
-Tick(r) == now' = NowAfter(r)
+Tick(r, tt) == tt \in ClockChoices(r) /\ now' = tt
 
-Reject(r, why) == /\ Tick(r)
+Reject(r, tt, why) == /\ Tick(r, tt)
                   /\ UNCHANGED <<world, ledger>>
                   /\ last' = Resp(r, "rej", why, -1, 0)
                   /\ res' = NoRes
 
-Accept(r, id) == /\ id \in FreshIds
-                 /\ Tick(r)
+Accept(r, id, tt) == /\ id \in FreshIds
+                 /\ Tick(r, tt)
                  /\ bal' = Debit(bal, Spent(r), Need(r))
                  /\ nextId' = id + 1
-                 /\ trades' = Append(trades, Fill(id, r))                      \* ack_trade
-                 /\ notif' = notif \o <<BalNotif(Spent(r), bal'[Spent(r)]), FillNotif(Fill(id, r))>>
+                 /\ trades' = Append(trades, Fill(id, r, tt))                     \* ack_trade
+                 /\ notif' = notif \o <<BalNotif(Spent(r), bal'[Spent(r)]), FillNotif(Fill(id, r, tt))>>
                  /\ last' = Resp(r, "ok", "-", id, r.q)
                  /\ res' = NoRes
                  /\ UNCHANGED <<world, open>>
 
 \* --- one action per arm of MockExchange::open_order ---
-OpenRejectKind(r)      == r.op = "open" /\ ~Market(r) /\ Reject(r, "kind")
-OpenRejectInstr(r)     == r.op = "open" /\ Market(r) /\ ~Listed(r) /\ Reject(r, "instr")
-OpenAcceptBuy(r, id)   == r.op = "open" /\ Market(r) /\ Listed(r) /\ r.side = "buy"  /\ Funded(r)  /\ Accept(r, id)
-OpenRejectFundsBuy(r)  == r.op = "open" /\ Market(r) /\ Listed(r) /\ r.side = "buy"  /\ ~Funded(r) /\ Reject(r, "funds")
-OpenAcceptSell(r, id)  == r.op = "open" /\ Market(r) /\ Listed(r) /\ r.side = "sell" /\ Funded(r)  /\ Accept(r, id)
-OpenRejectFundsSell(r) == r.op = "open" /\ Market(r) /\ Listed(r) /\ r.side = "sell" /\ ~Funded(r) /\ Reject(r, "funds")
+OpenRejectKind(r, tt)      == r.op = "open" /\ ~Market(r) /\ Reject(r, tt, "kind")
+OpenRejectInstr(r, tt)     == r.op = "open" /\ Market(r) /\ ~Listed(r) /\ Reject(r, tt, "instr")
+OpenAcceptBuy(r, id, tt)   == r.op = "open" /\ Market(r) /\ Listed(r) /\ r.side = "buy"  /\ Funded(r)  /\ Accept(r, id, tt)
+OpenRejectFundsBuy(r, tt)  == r.op = "open" /\ Market(r) /\ Listed(r) /\ r.side = "buy"  /\ ~Funded(r) /\ Reject(r, tt, "funds")
+OpenAcceptSell(r, id, tt)  == r.op = "open" /\ Market(r) /\ Listed(r) /\ r.side = "sell" /\ Funded(r)  /\ Accept(r, id, tt)
+OpenRejectFundsSell(r, tt) == r.op = "open" /\ Market(r) /\ Listed(r) /\ r.side = "sell" /\ ~Funded(r) /\ Reject(r, tt, "funds")
 
 \* --- queries: answer from the ledger, change nothing but the clock ---
-Query(r, answer) == /\ Tick(r)
+Query(r, tt, answer) == /\ Tick(r, tt)
                     /\ UNCHANGED <<world, ledger>>
                     /\ last' = Resp(r, "query", "-", -1, 0)
                     /\ res' = answer
 
-FetchSnapshot(r) == r.op = "snapshot" /\ Query(r, [NoRes EXCEPT !.bal = bal, !.open = open])
-FetchBalances(r) == r.op = "balances" /\ Query(r, [NoRes EXCEPT !.bal = bal])
-FetchTrades(r)   == r.op = "trades"   /\ Query(r, [NoRes EXCEPT !.trades = TradesSince(r.since)])
+FetchSnapshot(r, tt) == r.op = "snapshot" /\ Query(r, tt, [NoRes EXCEPT !.bal = bal, !.open = open])
+FetchBalances(r, tt) == r.op = "balances" /\ Query(r, tt, [NoRes EXCEPT !.bal = bal])
+FetchTrades(r, tt)   == r.op = "trades"   /\ Query(r, tt, [NoRes EXCEPT !.trades = TradesSince(r.since)])
 
-\* the step the exchange takes for request r (id matters for the accepting arms only)
-Serve(r, id) == \/ OpenRejectKind(r)  \/ OpenRejectInstr(r)
-                \/ OpenAcceptBuy(r, id)  \/ OpenRejectFundsBuy(r)
-                \/ OpenAcceptSell(r, id) \/ OpenRejectFundsSell(r)
-                \/ FetchSnapshot(r) \/ FetchBalances(r) \/ FetchTrades(r)
+\* the step the exchange takes for request r with its clock reading tt (id matters for the
+\* accepting arms only)
+Serve(r, id, tt) == \/ OpenRejectKind(r, tt)  \/ OpenRejectInstr(r, tt)
+                    \/ OpenAcceptBuy(r, id, tt)  \/ OpenRejectFundsBuy(r, tt)
+                    \/ OpenAcceptSell(r, id, tt) \/ OpenRejectFundsSell(r, tt)
+                    \/ FetchSnapshot(r, tt) \/ FetchBalances(r, tt) \/ FetchTrades(r, tt)
 
 Bounded == Len(trades) < MaxTrades
 
-OpenRejectKindA      == \E r \in OpenReqs : OpenRejectKind(r)
-OpenRejectInstrA     == \E r \in OpenReqs : OpenRejectInstr(r)
-OpenAcceptBuyA       == Bounded /\ \E r \in OpenReqs : \E id \in FreshIds : OpenAcceptBuy(r, id)
-OpenRejectFundsBuyA  == \E r \in OpenReqs : OpenRejectFundsBuy(r)
-OpenAcceptSellA      == Bounded /\ \E r \in OpenReqs : \E id \in FreshIds : OpenAcceptSell(r, id)
-OpenRejectFundsSellA == \E r \in OpenReqs : OpenRejectFundsSell(r)
-FetchSnapshotA       == \E r \in SnapReqs : FetchSnapshot(r)
-FetchBalancesA       == \E r \in BalReqs : FetchBalances(r)
-FetchTradesA         == \E r \in TradeReqs : FetchTrades(r)
+OpenRejectKindA      == \E r \in OpenReqs : \E tt \in ClockChoices(r) : OpenRejectKind(r, tt)
+OpenRejectInstrA     == \E r \in OpenReqs : \E tt \in ClockChoices(r) : OpenRejectInstr(r, tt)
+OpenAcceptBuyA       == Bounded /\ \E r \in OpenReqs : \E id \in FreshIds : \E tt \in ClockChoices(r) : OpenAcceptBuy(r, id, tt)
+OpenRejectFundsBuyA  == \E r \in OpenReqs : \E tt \in ClockChoices(r) : OpenRejectFundsBuy(r, tt)
+OpenAcceptSellA      == Bounded /\ \E r \in OpenReqs : \E id \in FreshIds : \E tt \in ClockChoices(r) : OpenAcceptSell(r, id, tt)
+OpenRejectFundsSellA == \E r \in OpenReqs : \E tt \in ClockChoices(r) : OpenRejectFundsSell(r, tt)
+FetchSnapshotA       == \E r \in SnapReqs : \E tt \in ClockChoices(r) : FetchSnapshot(r, tt)
+FetchBalancesA       == \E r \in BalReqs : \E tt \in ClockChoices(r) : FetchBalances(r, tt)
+FetchTradesA         == \E r \in TradeReqs : \E tt \in ClockChoices(r) : FetchTrades(r, tt)
 
 Next == \/ OpenRejectKindA \/ OpenRejectInstrA
         \/ OpenAcceptBuyA \/ OpenRejectFundsBuyA
@@ -262,7 +271,7 @@ OneFillA == /\ Accepted =>
                       /\ f.instr = Served.instr /\ f.side = Served.side
                       /\ f.p = Served.p /\ f.q = Served.q /\ last'.filled = Served.q
                       /\ f.fee = f.p * f.q * fee
-                      /\ f.t = now'
+                      /\ f.t = now'                                  \* stamped with the exchange clock
             /\ ~Accepted => trades' = trades
 
 \* announced by one balance and one trade notification; nothing is announced otherwise
@@ -284,8 +293,11 @@ QueriesReflectA == /\ Served.op = "snapshot" => res'.bal = bal /\ res'.open = op
 
 ConfigFixedA == fee' = fee /\ lat' = lat
 
+\* the exchange clock reads an instant between the request and the arrival of its answer
+ClockA == now' >= Served.t /\ now' <= Served.t + lat
+
 StepProps == AcceptIffA /\ ExactDebitA /\ RejectPureA /\ FreshIdsA /\ OneFillA /\ Notif11A
-             /\ QueriesReflectA /\ ConfigFixedA
+             /\ QueriesReflectA /\ ConfigFixedA /\ ClockA
 
 AcceptIff      == [][AcceptIffA]_vars
 ExactDebit     == [][ExactDebitA]_vars
@@ -295,6 +307,7 @@ OneFill        == [][OneFillA]_vars
 Notif11        == [][Notif11A]_vars
 QueriesReflect == [][QueriesReflectA]_vars
 ConfigFixed    == [][ConfigFixedA]_vars
+Clock          == [][ClockA]_vars
 
 \* `now` is written before it is read in every step and `last`/`res` only record the step: none of
 \* them influences what can happen next, so states are identified up to them.
